@@ -36,16 +36,18 @@ BOUNDS = {
     "quick": dict(Projs=_ALL, CDIds={1, 2, 5, 9}, PixIds={1, 2, 6}, CrpixIds={2}, MaxExtra=1, SipMaxOrder=3,
                   SkyCDIds={1, 5, 7}, SkyLons={0, 10, 350}, SkyLats={0, 1, 60, 90, 140, 150, 180},
                   RefCDIds={5}, RefLonIds=set(range(1, 10)), RefLatIds=set(range(1, 9)),
-                  HistCalls=CALLS6, MaxHist=4, ShortKinds={"TAN", "SIP"}),
+                  HistCalls=CALLS6, MaxHist=4, ShortKinds={"TAN", "SIP"}, HistArgModes={"scalar", "buffer"},
+                  ReprCalls={"i2s_d", "s2i_dr", "s2i_dp", "s2i_np", "jac"}, ReprKinds={"TAN", "TPV", "SIP"}),
     "thorough": dict(Projs=_ALL, CDIds=set(range(1, 13)), PixIds=set(range(1, 7)), CrpixIds={1, 2}, MaxExtra=1, SipMaxOrder=4,
                      SkyCDIds=set(range(1, 9)), SkyLons={0, 10, 90, 180, 270, 350, 359},
                      SkyLats={0, 1, 30, 45, 60, 90, 120, 135, 140, 150, 175, 180},
                      RefCDIds={1, 5, 9}, RefLonIds=set(range(1, 10)), RefLatIds=set(range(1, 9)),
-                     HistCalls=CALLS7, MaxHist=4, ShortKinds=set()),
+                     HistCalls=CALLS7, MaxHist=4, ShortKinds=set(), HistArgModes={"scalar", "buffer"},
+                     ReprCalls=CALLS7, ReprKinds={"TAN", "TPV", "SIP"}),
 }
 # thorough, second class run: pairs of coefficients on a smaller pixel / CD product
-PAIRS = dict(CDIds={2, 5, 9, 12}, PixIds={1, 3, 6}, CrpixIds={2}, MaxExtra=2, SipMaxOrder=3)
-FIXED = dict(Repaired=True, PVMapVariant="pinned", HistVariant="pinned", DoExport=False)
+PAIRS = dict(CDIds={2, 5, 9, 12}, PixIds={1, 3, 6}, CrpixIds={2}, MaxExtra=2, SipMaxOrder=3, OrdVariety=False)
+FIXED = dict(Repaired=True, PVMapVariant="pinned", HistVariant="pinned", PolyVariant="pinned", OrdVariety=True, DoExport=False)
 
 
 def _consts(tier, **over):
@@ -129,7 +131,7 @@ def obs_anchor(args):
     W = _wcs().WCS
     s = L.SCALES[k % len(L.SCALES)]
     base = L.CRPIX_BASE[(k // len(L.SCALES)) % len(L.CRPIX_BASE)]
-    h = {"proj": "TAN", "crpix": [0, 0], "cd": c["cd"], "co": [], "invkeys": True}
+    h = dict(L.TAN_REP, cd=c["cd"])
     hdr = L.make_header(h, s, (float(c["crval"][0]), float(c["crval"][1])), base)
     p = L.gnomonic_radius_deg(c["tansq"]) * 2.0 ** s
     x = hdr["crpix1"] + c["pixdir"][0] * p
@@ -397,22 +399,27 @@ def hist_header(hk, hidx):
     return L.realistic_header(rng, hk, crval=HIST_CRVALS[hidx % len(HIST_CRVALS)], crpix=(1000.5 + 37 * hidx, 2100.25))
 
 
-def _hist_call(w, call, pix, sky):
-    px, py = pix
+def _hist_call(w, call, a, b):
+    """a, b: the pixel (image2sky, get_jacobian) or the sky position (sky2image) - scalars or arrays"""
     if call == "i2s_d":
-        return w.image2sky(px, py, distort=True)
+        return w.image2sky(a, b, distort=True)
     if call == "i2s_n":
-        return w.image2sky(px, py, distort=False)
+        return w.image2sky(a, b, distort=False)
     if call == "jac":
-        return w.get_jacobian(px, py)
+        return w.get_jacobian(a, b)
     distort = call[4] == "d"
     find = call[5] == "r"
-    return w.sky2image(sky[0], sky[1], distort=distort, find=find)
+    return w.sky2image(a, b, distort=distort, find=find)
+
+
+def _hist_vals(call, k, sky):
+    return sky if call.startswith("s2i") else HIST_PIX[k]
 
 
 def _try(f):
+    """the result as a tuple of float64 scalars (element 0 of every output for array calls)"""
     try:
-        return ("ok", tuple(np.float64(v) for v in f()))
+        return ("ok", tuple(np.float64(np.asarray(v).reshape(-1)[0]) for v in f()))
     except Exception as e:  # noqa
         return ("exc", type(e).__name__)
 
@@ -433,14 +440,19 @@ def _hist_sky(hk, hidx, k):
     return _SKIES[key]
 
 
-def _fresh(hk, hidx, call, k):
-    key = (hk, hidx, call, k)
+def _fresh(hk, hidx, call, k, mode):
+    key = (hk, hidx, call, k, mode)
     if key not in _FRESH:
         W = _wcs().WCS
         hdr = hist_header(hk, hidx)
         sky = _hist_sky(hk, hidx, k)
-        a = _try(lambda: _hist_call(W(hdr), call, HIST_PIX[k], sky))
-        b = _try(lambda: _hist_call(W(hdr), call, HIST_PIX[k], sky))
+        va, vb = _hist_vals(call, k, sky)
+
+        def one():
+            if mode == "buffer":
+                return _try(lambda: _hist_call(W(hdr), call, np.array([va], dtype="f8"), np.array([vb], dtype="f8")))
+            return _try(lambda: _hist_call(W(hdr), call, va, vb))
+        a, b = one(), one()
         if a[0] != b[0] or (a[0] == "ok" and [v.tobytes() for v in a[1]] != [v.tobytes() for v in b[1]]) or (a[0] == "exc" and a != b):
             raise MachineryError("two fresh objects disagree on %s: %s %s" % (key, a, b))
         _FRESH[key] = (a, sky)
@@ -460,26 +472,180 @@ def _hist_rel(call, got, want):
 
 
 def obs_history(args):
-    rid, (hk, hidx, calls) = args
+    """mode "scalar": python scalars.  mode "buffer": the caller keeps ONE pair of arrays for the whole sequence and
+    overwrites it in place before every call (same argument objects, new contents)."""
+    rid, (hk, hidx, calls, mode) = args
     W = _wcs().WCS
     cm = _quiet()
     steps = []
+    bufa, bufb = np.zeros(1, dtype="f8"), np.zeros(1, dtype="f8")
     try:
         with np.errstate(all="ignore"):
             w = W(hist_header(hk, hidx))
             for k, call in enumerate(calls):
-                want, sky = _fresh(hk, hidx, call, k)
-                got = _try(lambda: _hist_call(w, call, HIST_PIX[k], sky))
+                want, sky = _fresh(hk, hidx, call, k, mode)
+                va, vb = _hist_vals(call, k, sky)
+                if mode == "buffer":
+                    bufa[0], bufb[0] = va, vb
+                    got = _try(lambda: _hist_call(w, call, bufa, bufb))
+                    if (float(bufa[0]), float(bufb[0])) != (float(va), float(vb)):
+                        got = ("exc", "ARGUMENT_MODIFIED")
+                else:
+                    got = _try(lambda: _hist_call(w, call, va, vb))
                 steps.append({"call": call, "rel": _hist_rel(call, got, want)})
     finally:
         cm.__exit__(None, None, None)
-    return {"id": rid, "kind": "history", "c": {"hk": hk, "calls": list(calls)}, "o": {"steps": steps}, "x": {"hidx": hidx}}
+    return {"id": rid, "kind": "history", "c": {"hk": hk, "calls": list(calls), "mode": mode}, "o": {"steps": steps}, "x": {"hidx": hidx}}
+
+
+# ---- input representations ---------------------------------------------------------------------------------------
+# values: integers for the integer types, dyadic fractions that are exact in float32 for the float types.  The reference
+# is always the call with python-float scalars of the same values on a fresh object.
+REPR_NP = {"f8": "f8", "f4": "f4", "i8": "i8", "i4": "i4", "i2": "i2", "u2": "u2"}
+REPR_INT = {"pyint", "i8", "i4", "i2", "u2"}
+REPR_PIX = {"int": [(1500, 10), (250, 3000), (1024, 2048), (2048, 4096)],
+            "frac": [(1500.75, 10.125), (250.25, 3000.5), (1024.5, 2048.5), (2047.0625, 4095.875)]}
+# sky positions around CRVAL = (10.25, 20.5) at 2 arcsec / pixel (the image spans 1.1 x 2.3 degree)
+REPR_SKY = {"int": [(10, 20), (10, 21), (11, 20), (10, 20)],
+            "frac": [(10.03125, 20.0625), (10.5, 21.25), (9.96875, 19.75), (10.25, 20.5)]}
+
+
+def repr_header(hk, hidx):
+    rng = random.Random(7000 + 13 * hidx + {"TAN": 1, "TPV": 2, "SIP": 3}[hk])
+    hdr = L.realistic_header(rng, hk, crval=(10.25, 20.5), crpix=(1024.5 + 3 * hidx, 2048.5))
+    th = 0.3 + hidx
+    sc = 2.0 / 3600.0
+    hdr.update(cd1_1=-sc * np.cos(th), cd1_2=sc * np.sin(th), cd2_1=sc * np.sin(th), cd2_2=sc * np.cos(th))
+    if hk == "TPV":      # the PV magnitudes of realistic_header refer to its own scale: rescale the non-linear terms
+        rng2 = random.Random(9000 + hidx)
+        r = 2500 * sc
+        for key in list(hdr):
+            if key.startswith("pv") and int(key.split("_")[1]) >= 4:
+                n = 2 if int(key.split("_")[1]) < 7 else 3
+                hdr[key] = rng2.uniform(-0.01, 0.01) / r ** (n - 1)
+            elif key in ("pv1_0", "pv2_0"):
+                hdr[key] = rng2.uniform(-1e-2, 1e-2) * r
+    return hdr
+
+
+def repr_build(c, vals):
+    """the two arguments in the representation c; returns (a, b, index-of-value -> flat position in the result)"""
+    dt, ct, ly = c["dtype"], c["container"], c["layout"]
+    xs, ys = [v[0] for v in vals], [v[1] for v in vals]
+    n = len(vals)
+    if ct == "scalar":
+        raise ValueError("scalars are called one by one")
+    if ct == "list":
+        conv = int if dt == "pyint" else float
+        return [conv(v) for v in xs], [conv(v) for v in ys], list(range(n))
+    npdt = np.dtype(REPR_NP[dt])
+
+    def arr(v):
+        a = np.array(v, dtype=npdt)
+        if ct == "zero_d":
+            return np.array(v[0], dtype=npdt)
+        if ct == "two_d":
+            return a.reshape(2, n // 2)
+        if ly == "strided":
+            big = np.zeros(3 * n + 1, dtype=npdt)
+            big[1::3] = a
+            return big[1::3]
+        if ly == "reversed":
+            return np.array(v[::-1], dtype=npdt)[::-1]
+        if ly == "swapped":
+            return a.astype(npdt.newbyteorder("S"))
+        if ly == "readonly":
+            a.flags.writeable = False
+        return a
+    return arr(xs), arr(ys), ([0] if ct == "zero_d" else list(range(n)))
+
+
+def repr_scalar(c, v):
+    dt = c["dtype"]
+    if dt == "pyfloat":
+        return float(v)
+    if dt == "pyint":
+        return int(v)
+    return np.dtype(REPR_NP[dt]).type(v)
+
+
+def _repr_base(c):
+    """the plain representation of the same element type"""
+    if c["dtype"] in ("pyfloat", "pyint"):
+        return dict(c, container="scalar", layout="contig")
+    return dict(c, container="array", layout="contig")
+
+
+def _repr_ok(r):
+    return r["o"]["err"] == "none" and bool(r["o"]["rel"]) and all(v in ("same", "close") for v in r["o"]["rel"])
+
+
+def repr_mark_base(recs):
+    """signature naming only: does the plain representation of the element type fail for the same call / header?"""
+    key = lambda c, hidx: (c["call"], c["hk"], c["dtype"], c["container"], c["layout"], hidx)  # noqa
+    by = {key(r["c"], r["x"]["hidx"]): r for r in recs}
+    for r in recs:
+        b = by.get(key(_repr_base(r["c"]), r["x"]["hidx"]))
+        r["x"]["base_fails"] = bool(b is not None and not _repr_ok(b))
+
+
+def _call_rel(call, got, want):
+    return L.sky_rel(got, want) if call.startswith("i2s") else _jac_rel(got, want) if call == "jac" else L.pix_rel(got, want)
+
+
+def obs_repr(args):
+    rid, (c, hidx) = args
+    W = _wcs().WCS
+    call, hk = c["call"], c["hk"]
+    hdr = repr_header(hk, hidx)
+    kind = "int" if c["dtype"] in REPR_INT else "frac"
+    vals = (REPR_SKY if call.startswith("s2i") else REPR_PIX)[kind]
+    cc = {kk: c[kk] for kk in ("call", "dtype", "container", "layout", "hk")}
+    o = {"err": "none", "rel": []}
+    x_ = {"hidx": hidx, "values": vals, "stage": "reference"}
+    cm = _quiet()
+    try:
+        with np.errstate(all="ignore"):
+            try:
+                ref = [tuple(np.float64(v) for v in _hist_call(W(hdr), call, float(a), float(b))) for a, b in vals]
+            except Exception as e:  # noqa
+                raise MachineryError("reference call failed for %s: %r" % (cc, e))
+            try:
+                x_["stage"] = "call"
+                if c["container"] == "scalar":
+                    w = W(hdr)
+                    got = [tuple(np.float64(v) for v in _hist_call(w, call, repr_scalar(c, a), repr_scalar(c, b))) for a, b in vals]
+                    idx = list(range(len(vals)))
+                else:
+                    a, b, idx = repr_build(c, vals)
+                    before = None if isinstance(a, list) else (a.tobytes(), b.tobytes(), a.dtype.str, b.dtype.str)
+                    res = _hist_call(W(hdr), call, a, b)
+                    if before is not None and before != (a.tobytes(), b.tobytes(), a.dtype.str, b.dtype.str):
+                        x_["frame_ok"] = False
+                    flat = [np.asarray(v, dtype="f8").reshape(-1) for v in res]
+                    if any(f.size != len(idx) for f in flat):
+                        o["rel"] = ["off"]
+                        x_["result_sizes"] = [int(f.size) for f in flat]
+                        return {"id": rid, "kind": "repr", "c": cc, "o": o, "x": x_}
+                    got = [tuple(np.float64(f[i]) for f in flat) for i in range(len(idx))]
+            except MachineryError:
+                raise
+            except Exception as e:  # noqa
+                o["err"] = type(e).__name__
+                x_["msg"] = str(e)[:120]
+                return {"id": rid, "kind": "repr", "c": cc, "o": o, "x": x_}
+    finally:
+        cm.__exit__(None, None, None)
+    o["rel"] = [_call_rel(call, g, ref[i]) for g, i in zip(got, idx)]
+    x_["got"] = [[float(v) for v in g] for g in got]
+    x_["reference"] = [[float(v) for v in r] for r in ref]
+    return {"id": rid, "kind": "repr", "c": cc, "o": o, "x": x_}
 
 
 # =====================================================================================================
 # judging: TLC decides, Python turns rejected records into violations with structural signatures
 # =====================================================================================================
-MACHINERY_CLAUSES = {"rep_not_in_class", "pixel_not_on_anchor", "trace_mismatch", "unknown_record_kind"}
+MACHINERY_CLAUSES = {"rep_not_in_class", "pixel_not_on_anchor", "trace_mismatch", "unknown_record_kind", "header_malformed", "repr_case_malformed"}
 
 
 def _err_sig(h, distort, stage, clause):
@@ -532,7 +698,16 @@ def signature(r, clause):
         return "%s|%s|%s,dtype=%s" % (entry, clause, "distorted" if c["distorted"] else "tan", c["dtype"])
     if k == "history":
         bad = sorted({s["call"] for s in o["steps"] if s["rel"] != "same"})
-        return "history|%s|%s,%s" % (clause, c["hk"], "+".join(bad))
+        return "history|%s|%s,%s%s" % (clause, c["hk"], "+".join(bad), ",reused_argument_buffer" if c.get("mode") == "buffer" else "")
+    if k == "repr":
+        entry = {"i2s": "image2sky", "s2i": "sky2image", "jac": "get_jacobian"}[c["call"][:3]]
+        # the structural class: the element type alone when the plain representation of that type (contiguous array,
+        # python scalar) fails as well; else the container / layout that makes the difference
+        if x_.get("base_fails", False):
+            what = c["dtype"]
+        else:
+            what = "%s,%s" % (c["dtype"], c["container"]) + ("" if c["layout"] == "contig" else "," + c["layout"])
+        return "%s|%s|input=%s" % (entry, clause, what)
     return "%s|%s" % (k, clause)
 
 
@@ -552,7 +727,10 @@ def replay_case(r):
     if k == "scalar":
         return {"kind": k, "plan": x_["plan"], "observed": {"o": r["o"], "scalar": x_.get("scalar"), "array": x_.get("array"), "msg": x_.get("msg")}}
     if k == "history":
-        return {"kind": k, "hk": r["c"]["hk"], "hidx": x_["hidx"], "calls": r["c"]["calls"], "observed": r["o"]}
+        return {"kind": k, "hk": r["c"]["hk"], "hidx": x_["hidx"], "calls": r["c"]["calls"], "mode": r["c"].get("mode", "scalar"), "observed": r["o"]}
+    if k == "repr":
+        return {"kind": k, "c": r["c"], "hidx": x_["hidx"],
+                "observed": {"o": r["o"], "got": x_.get("got"), "reference": x_.get("reference"), "values": x_.get("values"), "msg": x_.get("msg")}}
     return {"kind": k}
 
 
@@ -568,7 +746,7 @@ def judge(ctx, recs, what):
                 raise MachineryError("harness record rejected for a machinery reason (%s): %s" % (cl, {kk: r[kk] for kk in ("kind", "c", "o")}))
             ctx.violation(signature(r, cl), "%s record not allowed by Wcs.tla: clause %s" % (r["kind"], cl), replay_case(r))
     for r in recs:
-        if r["kind"] == "scalar" and r.get("x", {}).get("frame_ok") is False:
+        if r["kind"] in ("scalar", "repr") and r.get("x", {}).get("frame_ok") is False:
             ctx.violation("%s|argument_modified" % r["c"]["call"], "array argument modified by the call", replay_case(r))
     return rejects
 
@@ -642,7 +820,14 @@ def random_abstract(rng, rid):
         co.append({"ax": ax, "j": j, "p": p, "q": q, "val": [v.numerator, v.denominator], "deg": deg})
     lim = 3 if proj != "SIP" else 6          # keeps every rational of the evaluation inside 32 bits
     pix = [[crpix[0] + rng.randint(-lim, lim), 1], [crpix[1] + rng.randint(-lim, lim), 1]]
-    h = {"proj": proj, "crpix": crpix, "cd": cd, "co": co, "invkeys": True}
+    h = {"proj": proj, "crpix": crpix, "cd": cd, "co": co, "invkeys": True, "ord": [0, 0], "iord": [0, 0], "pvsets": ["all", "all"]}
+    if proj == "SIP":       # declared orders: independent per axis, at least the degree of the axis' coefficients
+        top = [max([2] + [c_["deg"] for c_ in co if c_["ax"] == ax]) for ax in (1, 2)]
+        h["ord"] = [rng.randint(t, 5) for t in top]
+        h["iord"] = [rng.randint(2, 6), rng.randint(2, 6)]
+        h["invkeys"] = rng.random() < 0.7
+    else:
+        h["pvsets"] = [rng.choice(["all", "deg2", "deg1", "one"]), rng.choice(["all", "deg2", "deg1", "one"])]
     return {"id": rid, "c": {"h": h, "pix": pix, "distort": True}}
 
 
@@ -672,18 +857,23 @@ def run(ctx):
     # ---- A. classes ---------------------------------------------------------------------------------
     if part("class"):
         consts = _consts(tier)
-        ctx.tlc("WcsMC.tla", what="forward-chain mechanism refines World; dispatch; class soundness (exhaustive)",
-                cfg_text=cfg(constants=consts, init="InitC", next_="NextC", invariants=["MechRefines", "S2IDispatchRefines", "ClassSound"]),
-                workers=16, require=["ChooseShape", "ChooseCoefs", "ChoosePix", "ChooseRef"], timeout=3000)
+        # one run checks the invariants over the whole bounded space and exports every case (single worker: ordered PrintT)
+        r0 = ctx.tlc("WcsMC.tla", what="forward-chain mechanism refines World; dispatch; class soundness (exhaustive) + export",
+                     cfg_text=cfg(constants=dict(consts, DoExport=True), init="InitC", next_="NextC", constraints=["Export"],
+                                  invariants=["MechRefines", "S2IDispatchRefines", "ClassSound"]),
+                     workers=1, require=["ChooseShape", "ChooseCoefs", "ChoosePix", "ChooseRef"], timeout=3000)
+        if r0.garbled:
+            raise MachineryError("unparsed export lines in the class run")
         small = _consts(tier, CDIds={1, 9}, PixIds={1}, CrpixIds={2}, RefCDIds=set())
         for nm, over, inv in (("pinned SIP handling violates MechRefines", dict(Repaired=False), "MechRefines"),
                               ("pinned find/distort dispatch violates S2IDispatchRefines", dict(Repaired=False), "S2IDispatchRefines"),
-                              ("a wrong scamp map violates MechRefines", dict(PVMapVariant="pv2_as_pv1"), "MechRefines")):
+                              ("a wrong scamp map violates MechRefines", dict(PVMapVariant="pv2_as_pv1"), "MechRefines"),
+                              ("evaluating the A/B pair over the common shape violates MechRefines", dict(PolyVariant="zip_pair"), "MechRefines")):
             r = ctx.tlc("WcsMC.tla", what="self-test: " + nm, cfg_text=cfg(constants=dict(small, **over), init="InitC", next_="NextC", invariants=[inv]),
                         workers=1, allow_violation=True, coverage=False)
             if inv not in r.violated:
                 raise MachineryError("self-test failed: %s" % nm)
-        cases = _export(ctx, consts, "export class and reference-pixel cases", "InitC", "NextC")
+        cases = _dedupe(r0.records.get("CASE", []))
         if tier == "thorough":
             pc = _consts(tier, **PAIRS)
             pc["RefCDIds"] = set()
@@ -780,13 +970,38 @@ def run(ctx):
                  scalar_array_bitwise_identical=sum(1 for r in srecs if r["o"]["rel"] and all(v == "same" for v in r["o"]["rel"])))
         probe["scalar"] = next((r for r in srecs if r["o"]["err"] == "none" and r["o"]["rel"] and all(v in ("same", "close") for v in r["o"]["rel"])), None)
 
+    # ---- D2. input representations -------------------------------------------------------------------------------------
+    if part("repr"):
+        ctx.log("input representations")
+        consts = _consts(tier)
+        rp = _export(ctx, consts, "enumerate input representations (call x element type x container x layout x header)", "InitC", "NextR",
+                     invariants=["ReprSound"])
+        nh = 1 if ctx.quick else 3
+        plan = [({kk: c[kk] for kk in ("call", "dtype", "container", "layout", "hk")}, hidx) for c in rp for hidx in range(nh)]
+        rrecs2 = pmap(obs_repr, list(zip(ids(len(plan)), plan)))
+        for r in rrecs2:
+            ctx.count({"kind": "repr", "c": r["c"], "hidx": r["x"]["hidx"]})
+        repr_mark_base(rrecs2)
+        recs += rrecs2
+        okr = [r for r in rrecs2 if _repr_ok(r)]
+        for need in ("f4", "i4", "pyint", "u2"):          # vacuity: the representations were really executed (whatever the outcome)
+            if not any(r["c"]["dtype"] == need and r["c"]["container"] == cont and (r["o"]["err"] != "none" or r["o"]["rel"])
+                       for r in rrecs2 for cont in (("scalar",) if need == "pyint" else ("array",))):
+                raise MachineryError("no executed input-representation record for element type %s" % need)
+        if not okr:
+            raise MachineryError("no input-representation record was accepted at all (not even float64 arrays)")
+        ctx.sample({"repr_case": okr[len(okr) // 2]["c"], "observed": okr[len(okr) // 2]["o"], "got": okr[len(okr) // 2]["x"].get("got")})
+        ctx.note(repr_records=len(rrecs2), repr_bitwise_identical=sum(1 for r in okr if all(v == "same" for v in r["o"]["rel"])),
+                 repr_rejections_where_statement_silent=sum(1 for r in rrecs2 if r["o"]["err"] != "none" and r["c"]["container"] in ("list", "zero_d", "two_d")))
+        probe["repr"] = next((r for r in okr if r["c"]["dtype"] == "f4" and r["c"]["container"] == "array"), okr[0])
+
     # ---- E. history machine --------------------------------------------------------------------------------------------------
     if part("history"):
         consts = _consts(tier)
         ctx.tlc("WcsMC.tla", what="history machine: every result equals the fresh object's (all call sequences)",
                 cfg_text=cfg(constants=consts, init="InitH", next_="NextH", invariants=["HistoryIndependent"]),
                 workers=8, require=["ChooseKind", "Call"], timeout=3000)
-        for variant in ("warm_start", "stale_inverse"):
+        for variant in ("warm_start", "stale_inverse", "identity_cache"):
             r = ctx.tlc("WcsMC.tla", what="self-test: %s object violates HistoryIndependent" % variant,
                         cfg_text=cfg(constants=dict(consts, HistVariant=variant, MaxHist=3), init="InitH", next_="NextH", invariants=["HistoryIndependent"]),
                         workers=1, allow_violation=True, coverage=False)
@@ -795,14 +1010,23 @@ def run(ctx):
         ctx.log("replaying histories")
         hs = _export(ctx, consts, "export every call sequence of length %d" % B["MaxHist"], "InitH", "NextH", tag="HIST")
         nhdr = 1 if ctx.quick else 3
-        plan = [(h["hk"], hidx, h["calls"]) for h in hs for hidx in range(nhdr)]
+        plan = [(h["hk"], hidx, h["calls"], h["mode"]) for h in hs for hidx in range(nhdr)]
+        cm = _quiet()          # the fresh-object references are computed once, before the fork
+        try:
+            with np.errstate(all="ignore"):
+                for key in sorted({(hk_, hidx, call, k, mode) for (hk_, hidx, calls, mode) in plan for k, call in enumerate(calls)}):
+                    _fresh(*key)
+        finally:
+            cm.__exit__(None, None, None)
         hrecs = pmap(obs_history, list(zip(ids(len(plan)), plan)))
         for r in hrecs:
             ctx.count({"kind": "history", "c": r["c"], "hidx": r["x"]["hidx"]})
         ctx.sample({"history": hrecs[len(hrecs) // 2]["c"], "observed": hrecs[len(hrecs) // 2]["o"]})
         recs += hrecs
         nsteps = sum(len(r["o"]["steps"]) for r in hrecs)
-        ctx.note(history_sequences=len(hrecs), history_steps=nsteps,
+        if not any(r["c"]["mode"] == "buffer" for r in hrecs):
+            raise MachineryError("no history with a re-used argument buffer was exported")
+        ctx.note(history_sequences=len(hrecs), history_steps=nsteps, history_sequences_reused_buffer=sum(1 for r in hrecs if r["c"]["mode"] == "buffer"),
                  history_steps_bitwise_identical=sum(1 for r in hrecs for s in r["o"]["steps"] if s["rel"] == "same"))
         probe["history"] = next((r for r in hrecs if all(s["rel"] == "same" for s in r["o"]["steps"])), None)
 
@@ -836,9 +1060,13 @@ def run(ctx):
             st = [dict(s) for s in p["o"]["steps"]]
             st[0]["rel"] = "close"          # different bits within the tolerance: still a dependence on the history
             corrupt.append(({"id": 8, "kind": "history", "c": p["c"], "o": {"steps": st}}, "result_depends_on_history"))
+        p = probe.get("repr")
+        if p:
+            corrupt.append(({"id": 9, "kind": "repr", "c": p["c"], "o": dict(p["o"], rel=list(p["o"]["rel"][:-1]) + ["off"])}, "representation_changes_result"))
+            corrupt.append(({"id": 10, "kind": "repr", "c": p["c"], "o": {"err": "TypeError", "rel": []}}, "unexpected_error"))
         originals = [{"id": 100 + i, "kind": probe[k]["kind"], "c": probe[k]["c"], "o": probe[k]["o"]}
                      for i, k in enumerate(sorted(probe)) if probe[k]]
-        if len(corrupt) < 8:
+        if len(corrupt) < 10:
             raise MachineryError("binding self-test: no accepted record of some kind to corrupt (%s)" % sorted(k for k in probe if probe[k]))
         saved = ctx.traces
         rej = tracecheck.validate(ctx, "WcsTrace.tla", [c for c, _ in corrupt] + originals, what="self-test: corrupted records rejected", workers=1)
@@ -850,12 +1078,15 @@ def run(ctx):
             raise MachineryError("binding self-test failed: an accepted record was rejected on re-validation")
 
     ctx.rule = ("WcsMC.tla exports every header of the bounded space (projection x CD id x CRPIX id x identity set + up to %d further "
-                "coefficient(s) with 2 values each, SIP order <= %d, with/without the optional SIP inverse keywords) x pixel ids x distort, "
+                "coefficient(s) with 2 values each, SIP A_ORDER x B_ORDER independently in 2..%d x AP/BP orders absent / equal / crossed, PV keyword "
+                "sets of the two axes from 4 unequal pairs) x pixel ids x distort, "
                 "each with its exact World; every case is concretised on one of %d scales x %d reference points x %d CRPIX bases and "
                 "compared with the pure-TAN member of its class; reference pixel on the CRVAL lattice (9 longitudes x 8 latitudes incl. "
                 "poles, seam, eps offsets); gnomonic anchors theta in {30,45,60} x 4 directions x CRVAL lattice x signed-permutation CDs; "
-                "seeded larger classes evaluated by TLC; realistic-header round trips x (distort, find); scalar-vs-array; every call "
-                "sequence of length %d over %d calls x 3 header kinds.  A case is distinct by its abstract record + concretisation index "
+                "seeded larger classes evaluated by TLC; realistic-header round trips x (distort, find); scalar-vs-array; input representations: "
+                "every call x element type (python float/int, f8, f4, i8, i4, i2, u2) x container (scalar, array, list, 0-d, 2-d) x layout "
+                "(contiguous, strided, reversed, byte-swapped, read-only) x 3 header kinds against the python-float scalar call; every call "
+                "sequence of length %d over %d calls x 3 header kinds x (python scalars | one caller buffer overwritten in place, one call shorter).  A case is distinct by its abstract record + concretisation index "
                 "and non-trivial always (each performs at least one transformation)" %
                 (B["MaxExtra"] if tier == "quick" else 2, B["SipMaxOrder"], len(L.SCALES), len(L.CRVALS), len(L.CRPIX_BASE),
                  B["MaxHist"], len(B["HistCalls"])))
@@ -865,6 +1096,7 @@ def run(ctx):
         "PV coefficient sets are complete (scamp style: every supported key present, PVi_1 = 1); radial PV terms (PVi_3, PVi_11) are outside the supported order",
         "equality with the FITS reference at arbitrary pixels is decided through class equivalence with a pure-TAN header plus exact anchors; the arctan / rotation numerics between anchors and the accuracy of the fitted inverse polynomial (find=False) are not decided (finite only)",
         "separations are great-circle separations (a longitude difference counts with cos(latitude)); CRVAL2 = +90 exactly: LONPOLE 180 (documented default) and the FITS default 0 both accepted",
+        "input representations: the value of an argument is the exact number it denotes (float32 included), the result must agree with the python-float scalar call within the call's tolerance; python lists, 0-d and 2-d arrays may be rejected (the documentation promises scalars or arrays) but must not give a different value",
         "history independence is demanded bit for bit (used object vs fresh object, same deterministic code, same arguments; two fresh objects are first checked to agree)",
     ]
     ctx.trusted_base = ctx.trusted_base + ["long-double great-circle separation kernel (validated on the lattice every run)",
@@ -889,7 +1121,10 @@ def replay(ctx, case):
     elif k == "scalar":
         r = obs_scalar((1, tuple(case["plan"])))
     elif k == "history":
-        r = obs_history((1, (case["hk"], case["hidx"], case["calls"])))
+        r = obs_history((1, (case["hk"], case["hidx"], case["calls"], case.get("mode", "scalar"))))
+    elif k == "repr":
+        r = obs_repr((1, (case["c"], case["hidx"])))
+        repr_mark_base([r, obs_repr((2, (_repr_base(case["c"]), case["hidx"])))])
     else:
         raise MachineryError("unknown replay kind %s" % k)
     print("replay observed:", {kk: r[kk] for kk in ("kind", "o")}, {kk: v for kk, v in r.get("x", {}).items() if kk != "hdr"})
